@@ -149,10 +149,32 @@ ROUND5 = {
  "C19": ("/tmp/out5-C19", ["C19", "C01"], "C19 renames the validation step (or all steps) with suffixes in half of the cases (C01 reported it unchanged)", "run_prepare sets right_disp_map unconditionally from the step literally named 'validation'", "validation step that only exists under a suffixed name"),
  "C20": ("/tmp/out5-C20", ["C20"], "", "bilateral margin truncated after the multiplication by the step", "step > 1 (pandora2d) + 3*sigma_space not an integer"),
 }
+ROUND6 = {
+ "C01": ("/tmp/out6-C01", ["C01"], "", "check table: the multiscale transition leads to 'begin' instead of 'disp_map'", "pipeline whose multiscale step is not the last step, through configuration checking"),
+ "C02": ("/tmp/out6-C02", ["C02"], "", "shift_right_img interpolates by hand with the two weights exchanged", "subpix 4, costs at quarter disparities"),
+ "C03": ("/tmp/out6-C03", ["C03"], "C03 synthetic volumes now declare window sizes 1/3/5 (offset_row_col 0/1/2) with arbitrary flags on the border", "to_disp applies mask_border to the disparity dataset when the window is larger than 1 (border flags overwritten with 1)", "cost volume with a window larger than 1 whose border flags are not exactly 1 (volumes that did not go through cv_masked)"),
+ "C04": ("/tmp/out6-C04", ["C04", "C13"], "", "validity_mask compares column coordinates with the position of the last column", "image coordinates that do not start at 0 (ROI read) + interval with max >= 0"),
+ "C05": ("/tmp/out6-C05", ["C05"], "C05's table lists NaN (float and 'NaN' string) among the out-of-domain values of every strictly positive / bounded float parameter", "bilateral sigma domain test rewritten as 'if sigma <= 0: raise' (NaN passes)", "sigma_color 'NaN' / nan"),
+ "C06": ("/tmp/out6-C06", ["C06"], "C06 gained the clause 'a received disparity strictly inside the interval that is not a sample and stays where it was is not flagged as stopped' (literal reading of the exactly-when clause)", "end-of-interval test made on the truncated sample index, before the is-sample test", "refinement of non-sample disparities (second refinement, bilateral filter before) lying between d_min and the next sample"),
+ "C07": ("/tmp/out6-C07", ["C07", "C08", "C14"], "same mechanism as C08-1 / C01-5 / C14-5; C07's pipeline shards now keep a filling option in a third of the cases and watch what each of the two cross-checks receives", "validation_run: check(left), fill(left), check(right), fill(right)", "validation with interpolated_disparity; the right map is checked against an already filled left map"),
+ "C08": ("/tmp/out6-C08", ["C08", "C15"], "", "prepare_pyramid reuses the left mask pyramid when the right image has no mask", "multiscale + a mask on exactly one image"),
+ "C09": ("/tmp/out6-C09", ["C09"], "C09 gained per-pixel grids on scenes of more than 200 rows or columns (one directed case per shard)", "cv_masked masks the per-pixel ranges in blocks of 100 rows with an exclusive end computed as an inclusive one", "per-pixel grids + at least 100 rows; rows 99, 199, ... are not masked"),
+ "C10": ("/tmp/out6-C10", ["C10"], "", "median_for_intervals builds its inner median filter once with the class default size", "median_for_intervals + filter_size other than 3"),
+ "C11": ("/tmp/out6-C11", ["C11"], "", "the left image is masked after the 3x3 median filter instead of before", "left mask with an interior masked pixel whose sample differs from its neighbours"),
+ "C12": ("/tmp/out6-C12", ["C12"], "", "the risk_min band name is built from the class-level default indicator", "suffixed risk step"),
+ "C13": ("/tmp/out6-C13", ["C13", "C02"], "", "compute_mean_raster keeps float32 for the row prefix sums", "zncc + prefix sums above 2^24 (12-bit radiometry) + crop not starting at row 0 / flip"),
+ "C14": ("/tmp/out6-C14", ["C14"], "", "sgm occlusion filling takes the absolute value of the neighbour when a single direction sees a valid pixel", "sgm + occlusion seeing exactly one valid pixel of negative disparity"),
+ "C15": ("/tmp/out6-C15", ["C15"], "", "mask_invalid_disparities tests an explicit flag list that omits occlusion and mismatch", "validation before the multiscale step, without filling"),
+ "C16": ("/tmp/out6-C16", ["C16"], "", "get_window unpacks the four margins in the order left, right, up, down", "ROI whose up margin differs from its right margin"),
+ "C17": ("/tmp/out6-C17", ["C17"], "", "check_datasets compares the left column count with itself", "pair with equal rows and different columns"),
+ "C18": ("/tmp/out6-C18", ["C18", "C12"], "same mechanism as C19-2 / C12-4; C18's second repetition now runs the very configuration object of the first one", "cost_volume_confidence_run appends the suffix to the indicator kept in the configuration", "suffixed confidence step + the same configuration object run twice"),
+ "C19": ("/tmp/out6-C19", ["C19"], "C19 inputs now use five reference-system flavours (EPSG codes, projections on a bare ellipsoid, a geographic system) and compare them by definition, not by text", "write_data_array converts the CRS with to_string() (lossy for systems without authority code)", "input CRS without authority code that GDAL matches to an EPSG entry"),
+ "C20": ("/tmp/out6-C20", ["C20"], "C20 draws the optional geometric_prior of the optimisation step", "optimization_check_conf returns early for an internal prior, before the margins are recorded", "optimization step with geometric_prior source internal"),
+}
 def main():
     table = json.load(open(sys.argv[1])) if len(sys.argv) > 1 else None
     items = [(pid, 1, v) for pid, v in ROUND1.items()] + [(pid, 2, v) for pid, v in ROUND2.items()] + [(pid, 3, v) for pid, v in ROUND3.items()]
-    items += [(pid, "3b", v) for pid, v in ROUND3B.items()] + [(pid, 4, v) for pid, v in ROUND4.items()] + [(pid, 5, v) for pid, v in ROUND5.items()]
+    items += [(pid, "3b", v) for pid, v in ROUND3B.items()] + [(pid, 4, v) for pid, v in ROUND4.items()] + [(pid, 5, v) for pid, v in ROUND5.items()] + [(pid, 6, v) for pid, v in ROUND6.items()]
     for pid, rnd, (src, caught, strengthened, what, needs) in items:
         name = f"{pid}-{rnd}"
         dst = os.path.join(V, "seeded", name)
@@ -165,7 +187,7 @@ def main():
         if os.path.exists(vf):
             ver = json.load(open(vf))
         meta = {
-            "property": pid, "name": name, "origin": "independent sub-agent given only the property text and a scratch worktree" + (" (second round: also shown the first-round patch, to avoid repeating it)" if rnd == 2 else "") + (" (third round: shown the two earlier patches, asked for another mechanism: step interactions, state between calls, copy/view, dtype, coordinates)" if str(rnd).startswith("3") else "") + (" (fourth round: shown the three earlier patches, asked for less-travelled paths: non-default parameters, domain extremes, two entry points, dtypes, coordinates, NaN/inf, a step present twice)" if rnd == 4 else "") + (" (fifth round: shown all earlier patches, asked for the slip that comes with a well-meant refactoring or optimisation)" if rnd == 5 else ""),
+            "property": pid, "name": name, "origin": "independent sub-agent given only the property text and a scratch worktree" + (" (second round: also shown the first-round patch, to avoid repeating it)" if rnd == 2 else "") + (" (third round: shown the two earlier patches, asked for another mechanism: step interactions, state between calls, copy/view, dtype, coordinates)" if str(rnd).startswith("3") else "") + (" (fourth round: shown the three earlier patches, asked for less-travelled paths: non-default parameters, domain extremes, two entry points, dtypes, coordinates, NaN/inf, a step present twice)" if rnd == 4 else "") + (" (fifth round: shown all earlier patches, asked for the slip that comes with a well-meant refactoring or optimisation)" if rnd == 5 else "") + (" (sixth round: shown the five earlier patches, asked for a clause or quantified dimension none of them touched, wrong values preferred to crashes)" if rnd == 6 else ""),
             "change": what, "needs_to_manifest": needs,
             "confirmed_by_me": {
                 "patch_applies_to_repo_HEAD": ver.get("patch_applies_to_HEAD"),
